@@ -36,6 +36,12 @@ def save_jobs(tier):
              "_obligation": "O1+O2", "_covers": ["faulted"], "unwind": 160} for b in (0, 1)]
 
 
+def api_jobs(tier):
+    return [{"id": f"O4.api.{nm}.branchable{b}", "func": "VerifH_C05_ApiFaults",
+             "conf": {"api": i, "branchable": b, "window": 120, "faults": 0, "dag": "", "orders": "all", "shortid": 0, "for": "C05"},
+             "_obligation": "O4", "_covers": ["called"], "unwind": 200} for i, nm in enumerate(("create", "update", "delete")) for b in ((0,) if tier == "quick" else (0, 1))]
+
+
 def index_jobs(tier):
     return [{"id": f"O1.index.unique{u}.{nm}", "func": "VerifH_C05_IndexFaults", "conf": {"unique": u, "op": i, "window": 12, "dag": "", "orders": "all", "shortid": 0},
              "_obligation": "O1", "_covers": ["ran"], "unwind": 60} for u in (0, 1) for i, nm in enumerate(("save", "update", "delete"))]
@@ -63,6 +69,7 @@ PROPERTY = {
          "jobs": head_jobs, "overrides": OVR, "unwind": 30},
         dict(_c02.SUITE, name="merge", jobs=merge_jobs),
         dict(_c20.SAVE_SUITE, name="save", jobs=save_jobs),
+        dict(_c20.SAVE_SUITE, name="api", jobs=api_jobs, redirects=_c20.API_REDIR, files=_c20.SAVE_FILES + ["zz_verif_c20api.go"], common=["intrinsics", "kvmodel", "dagenv", "kvtxn"]),
         dict(_c02.SUITE, name="ensuretxn", jobs=ensure_jobs, files=["zz_verif_env.go", "zz_verif_merge.go", "zz_verif_c05txn.go"]),
         dict(_c02.SUITE, name="index", jobs=index_jobs, files=["zz_verif_env.go", "zz_verif_merge.go", "zz_verif_c07uniq.go", "zz_verif_c07maint.go"]),
         {"name": "fetch", "pkg": "internal/db/fetcher", "files": ["zz_verif_c03.go", "zz_verif_c07.go", "zz_verif_c05fetch.go"],
